@@ -33,7 +33,9 @@ C12_MEMBER_CLAUSES = {'RealRoute', 'LoopFree', 'StrictHopsCrossed', 'ElementsFol
                       'EndsAtTransceivers'}
 
 EMPTY_OBS = dict(src=0, dst=0, sites=[], hops=[], nel=0, nuniq=0, contig=0)
-LINE = 1000                      # Routing.tla: LineEl(a, b) == 1000 * a + b
+LINE = 1000                      # Routing.tla: LineEl(<<a, b, k>>) == 1000000 * k + 1000 * a + b
+PAR = 1000000
+GHOST = (900, 1000)              # Routing.tla: Unknown(c) - an include node that is not in the topology
 
 
 def nworkers():
@@ -59,7 +61,7 @@ def mesh_id(n, links):
     return m
 
 
-def stratified_meshes(n, count, rng):
+def stratified_meshes(n, count, rng, doubled=True):
     """seeded sample of mesh ids, stratified by number of links (every stratum represented, none above its size)"""
     pairs = list(combinations(range(1, n + 1), 2))
     strata = list(range(len(pairs) + 1))
@@ -81,7 +83,14 @@ def stratified_meshes(n, count, rng):
         tries += 1
         k = rng.randint(max(1, len(pairs) // 2), len(pairs))
         out.add(mesh_id(n, {p: rng.randint(1, KINDS) for p in rng.sample(pairs, k)}))
-    return sorted(out)
+    # every fourth mesh gets a second, parallel link pair between two of its linked sites (MC_Routing: Doubling)
+    res = []
+    for i, m in enumerate(sorted(out)):
+        linked = [j for j in range(len(pairs)) if (m // BASE ** j) % BASE]
+        if doubled and i % 4 == 3 and linked:
+            m += (rng.choice(linked) + 1) * BASE ** len(pairs)
+        res.append(m)
+    return sorted(res)
 
 
 def sample_module(ids):
@@ -92,7 +101,7 @@ def sample_module(ids):
 def mc_cfg(emit=False, **kw):
     """cfg text of MC_Routing with the given constants; emit=True: generation run (only the Emit 'invariant')"""
     vals = dict(NSites=4, UseSample='FALSE', OneSrcDst='TRUE', Thin=1, LinePer=6, TwinPer=1, PairPer=8, TriplePer=2,
-                OverlapPer=2, GroupsExhaustive='FALSE', Salt=0)
+                OverlapPer=2, GroupsExhaustive='FALSE', Doubling='FALSE', Salt=0)
     for k, v in kw.items():
         if k not in vals:
             raise Machinery(f'unknown MC_Routing constant {k}')
@@ -151,11 +160,15 @@ def generate(chk, ids, tag, workers=None, **consts):
 
 
 # ------------------------------------------------------------------------------------------------- describing cases
+def elkind(c):
+    return 'ghost' if GHOST[0] < c < GHOST[1] else 'line' if c > LINE else 'roadm'
+
+
 def shape(req):
     """class of an include list: which kinds of element it names and how it is labelled"""
     if not req['inc']:
         return '-'
-    kinds = {('line' if c > LINE else 'roadm') for c in req['inc']}
+    kinds = {elkind(c) for c in req['inc']}
     lab = set(req['strict'])
     return ('+'.join(sorted(kinds)) + f'x{len(req["inc"])}:' +
             ('STRICT' if lab == {1} else 'LOOSE' if lab == {0} else 'MIXED'))
@@ -167,7 +180,7 @@ def group_shape(b):
     kinds, labs = set(), set()
     for i in grouped:
         r = b['reqs'][i - 1]
-        kinds |= {('line' if c > LINE else 'roadm') for c in r['inc']}
+        kinds |= {elkind(c) for c in r['inc']}
         labs |= set(r['strict'])
     if not kinds:
         return '-'
@@ -178,7 +191,13 @@ def kind(b):
     g = b['groups']
     n = len(b['reqs'])
     if not g:
-        return 'single' if n == 1 else ('twins' if n == 2 and b['reqs'][0] == b['reqs'][1] else f'{n}-free')
+        if n == 1:
+            return 'single'
+        if n == 2 and b['reqs'][0] == b['reqs'][1]:
+            return 'twins'
+        if n == 2 and all(b['reqs'][0][k] == b['reqs'][1][k] for k in ('s', 'd', 'inc')):
+            return 'near-twins'
+        return f'{n}-free'
     gs = {frozenset(x) for x in g}
     grouped = set().union(*gs)
     if len(gs) == 1:
@@ -204,7 +223,7 @@ class NetBench:
     """a designed network plus the generator's view of it: site numbers, arc of every fibre"""
 
     def __init__(self, net, eq, roadm_site, trx_site, line_arc, trx_of_site, roadm_of_site):
-        """line_arc: uid of every line element the GENERATOR of the topology created -> (a, b) of its arc"""
+        """line_arc: uid of every line element the GENERATOR of the topology created -> (a, b, k) of its arc"""
         from gnpy.topology.spectrum_assignment import build_oms_list
         from gnpy.core.elements import Fiber
         self.net, self.eq = net, eq
@@ -224,7 +243,7 @@ class NetBench:
                 b = el.uid if el.uid in line_arc else None
             if b is not None:
                 a = line_arc[b]
-                self.fibre_code[el.uid] = LINE * a[0] + a[1]
+                self.fibre_code[el.uid] = PAR * a[2] + LINE * a[0] + a[1]
                 (self.fibres_of_arc if isinstance(el, Fiber) else others).setdefault(a, []).append(el.uid)
         for a, v in others.items():
             self.fibres_of_arc.setdefault(a, v)          # a fibre-less arc is named by its own amplifier / fused
@@ -274,8 +293,10 @@ class NetBench:
     maxdev = 0.0         # largest distance of an observed hop length from a whole length unit
 
     def uid_of(self, code, pick=0):
+        if GHOST[0] < code < GHOST[1]:
+            return f'no such element {code}'
         if code > LINE:
-            spans = self.fibres_of_arc.get((code // LINE, code % LINE))
+            spans = self.fibres_of_arc.get(((code % PAR) // LINE, code % LINE, code // PAR))
             if not spans:
                 raise Machinery(f'no line element for include code {code}')
             return spans[pick % len(spans)]
@@ -357,30 +378,38 @@ class NetBench:
         return ev
 
 
-def mesh_json(n, arcs):
-    """legacy topology JSON of a generated mesh: Transceiver + Roadm per site; per arc one Fiber of km kilometres, or -
-    for a 0 km PATCH - one amplifier only (two ROADMs back to back: an OMS without any fibre)"""
+def mesh_json(n, arcs, variant=0):
+    """legacy topology JSON of a generated mesh: Transceiver + Roadm per site; per arc <<a, b, k>> one Fiber of km
+    kilometres, or - for a 0 km PATCH - one amplifier only (two ROADMs back to back: an OMS without any fibre).
+    Topology files are written both ways: about half of the fibres (chosen by variant) are followed by an amplifier
+    written in the file, the others are left bare for auto-design to equip."""
     data = line_or_mesh_json([str(k) for k in range(1, n + 1)], [])
     line_arc = {}
-    for a, b, km in arcs:
+    amp = {'type': 'Edfa', 'type_variety': 'std_medium_gain',
+           'operational': {'gain_target': None, 'tilt_target': 0, 'out_voa': None}}
+    for a, b, km, k in arcs:
+        tag = f'({a} -> {b})' + (' second' if k else '')
+        chain = []
         if km > 0:
-            uid = f'fiber ({a} -> {b})'
-            data['elements'].append({'uid': uid, 'type': 'Fiber', 'type_variety': 'SSMF',
-                                     'params': {'length': km, 'length_units': 'km', 'loss_coef': 0.2,
-                                                'con_in': None, 'con_out': None}})
+            chain.append(dict(uid=f'fiber {tag}', type='Fiber', type_variety='SSMF',
+                              params={'length': km, 'length_units': 'km', 'loss_coef': 0.2, 'con_in': None,
+                                      'con_out': None}))
+            if (variant + 3 * a + 5 * b + k) % 2:
+                chain.append(dict(amp, uid=f'amplifier after fiber {tag}'))
         else:
-            uid = f'patch edfa ({a} -> {b})'
-            data['elements'].append({'uid': uid, 'type': 'Edfa', 'type_variety': 'std_medium_gain',
-                                     'operational': {'gain_target': None, 'tilt_target': 0, 'out_voa': None}})
-        data['connections'] += [{'from_node': f'roadm {a}', 'to_node': uid}, {'from_node': uid, 'to_node': f'roadm {b}'}]
-        line_arc[uid] = (a, b)
+            chain.append(dict(amp, uid=f'patch edfa {tag}'))
+        data['elements'] += chain
+        hops = [f'roadm {a}'] + [e['uid'] for e in chain] + [f'roadm {b}']
+        data['connections'] += [{'from_node': u, 'to_node': v} for u, v in zip(hops, hops[1:])]
+        for e in chain:
+            line_arc[e['uid']] = (a, b, k)
     return data, line_arc
 
 
-def mesh_bench(n, arcs):
-    """generated mesh: sites '1'..'n'; arcs = [[a, b, km], ...] both directions listed"""
+def mesh_bench(n, arcs, variant=0):
+    """generated mesh: sites '1'..'n'; arcs = [[a, b, km, k], ...] both directions listed"""
     eq = equipment()
-    data, line_arc = mesh_json(n, arcs)
+    data, line_arc = mesh_json(n, arcs, variant)
     net, _, _ = designed(data, eq)
     return NetBench(net, eq, {f'roadm {k}': k for k in range(1, n + 1)}, {f'trx {k}': k for k in range(1, n + 1)},
                     line_arc, {k: f'trx {k}' for k in range(1, n + 1)}, {k: f'roadm {k}' for k in range(1, n + 1)})
@@ -389,7 +418,7 @@ def mesh_bench(n, arcs):
 def run_mesh_job(job):
     """worker: design the mesh once, replay all its batches; returns (trace, exceptions)"""
     try:
-        bench = mesh_bench(job['n'], job['links'])
+        bench = mesh_bench(job['n'], job['links'], job['mesh'])
     except Exception as e:                                        # noqa
         return None, [dict(stage='design', mesh=job['mesh'], exc=f'{type(e).__name__}: {e}',
                            tb=traceback.format_exc()[-1500:])]
@@ -628,10 +657,10 @@ def json_links(data):
                 if len(nxt) != 1 or len(chain) > 500:
                     raise Machinery(f'{w}: not a simple chain between ROADMs')
                 w = nxt[0]
-            a = (site[u], site[w])
+            a = (site[u], site[w], 0)
             if any(x[0] == a[0] and x[1] == a[1] for x in arcs):
-                raise Machinery(f'parallel links {u} -> {w}: outside the domain of the check')
-            arcs.append([a[0], a[1], int(round(metres))])
+                raise Machinery(f'parallel links {u} -> {w} in a shipped topology: not handled by json_links')
+            arcs.append([a[0], a[1], int(round(metres)), 0])
             for f in chain:
                 fibre_arc[f] = a
     return site, trx_site, fibre_arc, arcs
@@ -651,7 +680,7 @@ def shipped_bench(fname, unit=1.0):
         inv_trx.setdefault(s, u)
     bench = NetBench(net, eq, site, trx_site, fibre_arc, inv_trx, {s: u for u, s in site.items()})
     bench.unit = unit
-    bench.arcs = [[a, b, int(round(m / unit))] for a, b, m in arcs]
+    bench.arcs = [[a, b, int(round(m / unit)), k] for a, b, m, k in arcs]
     bench.nsites = len(site)
     return bench
 
@@ -660,9 +689,9 @@ def random_batches(bench, rng, count, groups=True, on_route=False, max_inc=2):
     """seeded batches on a shipped network (case generation only; nothing here judges)"""
     import networkx as nx
     sites = sorted(bench.trx_of_site)
-    arcs = [(a, b) for a, b, _ in bench.arcs]
+    arcs = [(a, b) for a, b, _, _ in bench.arcs]
     g = nx.DiGraph()
-    g.add_weighted_edges_from(bench.arcs)
+    g.add_weighted_edges_from([x[:3] for x in bench.arcs])
     out = []
     for k in range(count):
         def one():
